@@ -1311,6 +1311,38 @@ def main(chk: C.Check, build: C.Build) -> None:
                       f"negb (existsb is_linebreak {C.clist(str(c) for c in (9, 32, 31, 160, 0x2003, 0x3000, 65))}) && "
                       f"str_eqb (dec ({-120})%Z) {C.cstr('-120')} && str_eqb (dec 0%Z) {C.cstr('0')} && str_eqb (dec 907%Z) {C.cstr('907')}",
               "model": "(ws_chars, dec 0%Z)", "replay": {"what": "str.isspace / str.splitlines / str(int) tables"}}]
+    # line_number / line_number_factory directly: every offset (and two beyond the
+    # end) of strings rich in line boundaries of every kind
+    from liquid2.messages import line_number as ln_fn, line_number_factory
+
+    class _Tok:
+        def __init__(self, source: str, start: int) -> None:
+            self.source, self.start = source, start
+
+    n_ln = 0
+    for k in range(25 if not thorough else 200):
+        src_k = "".join(rnd.choice(["a", "b", " ", "\n", "\n", "\r", "\r\n", "\n\r", "\x0b", "\x0c", "\x1c", "\x1d",
+                                    "\x1e", "\x1f", "\x85", "\u2028", "\u2029", "\xa0", "é"])
+                        for _ in range(rnd.randint(0, 14)))
+        f = line_number_factory(src_k)
+        pairs = []
+        for pos in range(len(src_k) + 2):
+            outs = []
+            for fn in (lambda t: f(t), ln_fn):
+                try:
+                    outs.append(f"(Ok {fn(_Tok(src_k, pos))})")
+                except ValueError:
+                    outs.append("(PyExc ValueError)")
+                except Exception as e:  # noqa: BLE001
+                    outs.append(c_exc(e))
+            if outs[0] != outs[1]:
+                chk.finding("line_number-differs-from-factory", f"{src_k!r} offset {pos}: {outs}", {"source": src_k, "pos": pos})
+            pairs.append(f"({pos}, {outs[0]})")
+            n_ln += 1
+        items.append({"case": f"(let s := {C.cstr(src_k)} in forallb (fun pr => res_eqb_nopos N.eqb (line_number s (fst pr)) (snd pr)) "
+                              f"{C.clist(pairs, '(N * res N)')})",
+                      "model": f"map (line_number {C.cstr(src_k)}) {C.clist((str(p) for p in range(len(src_k) + 2)), 'N')}",
+                      "replay": {"what": "line_number on every offset", "source": src_k}})
     for case in cases:
         items.append({"case": case.case_term(), "model": case.model_term(), "replay": case.replay()})
     C.correspond(chk, "c15", IMPORTS, "", items, what="ExtractI18n.extract+render", shard=50)
@@ -1332,6 +1364,7 @@ def main(chk: C.Check, build: C.Build) -> None:
         "distribution": dist,
         "features": dict(sorted(feats.items())),
         "extra_oracle_cases_outside_model": n_extra,
+        "line_number_offsets_compared": n_ln,
         "lexer_defect_12_present": adj,
         "exhaustive": False,
         "tier_proved": "kernel (extraction visitor + translate tag/filters + tracing render over the abstract syntax)",
